@@ -130,6 +130,9 @@ def replay(prop, r):
             return replay_double_signal()
         except Exception as e:  # noqa
             return {"reproduced": False, "why": "signal replay failed: %r" % (e,)}
+    if r.get("name") == "m-c04-no-mutating-calls":
+        return {"reproduced": True, "why": "structural fact of the compiled call graph (no input needed): " + str(w.get("why")),
+                "calls": w.get("calls")}
     if r.get("name") == "m-c04-dispatch":
         return {"reproduced": True, "why": "structural fact of the compiled CFG (no input needed): " + str(w.get("why"))}
     if text is None:
